@@ -32,6 +32,16 @@ TrInit ==
   /\ meta' = [k \in Key |-> NoPtr] /\ gen' = {} /\ nextGen' = 1 /\ inflight' = {}
   /\ pc' = [p \in Proc |-> Idle] /\ gc' = GcIdle
 
+\* a legacy (pre-0.10) object written straight into the backend before the wrapper is built:
+\* data/<k> with a generation-less commit point, or (orphan) without one
+TrPlant ==
+  /\ IsEv("plant")
+  /\ \A o \in gen : o[1] # Ev.k
+  /\ ~Present(Ev.k)
+  /\ gen' = gen \cup {<<Ev.k, Leg, Ev.v>>}
+  /\ meta' = IF Ev.orphan THEN meta ELSE [meta EXCEPT ![Ev.k] = [g |-> Leg, v |-> Ev.v]]
+  /\ UNCHANGED <<nextGen, inflight, pc, gc>>
+
 TrCall ==
   /\ IsEv("call")
   /\ pc[P].st = "idle"
@@ -99,7 +109,8 @@ TrBe ==
                \* call and its payload write, so "minted before the sweep began" is checked in the
                \* weakest form the events determine: the writing operation was called before the sweep.
                /\ c.st = "gc"
-               /\ \E b \in born : b[1] = Ev.g /\ b[2] < callAt[P]
+               \* (a legacy payload data/<k> has no generation, hence no floor)
+               /\ (Ev.g = Leg \/ \E b \in born : b[1] = Ev.g /\ b[2] < callAt[P])
                /\ <<Ev.k, Ev.g>> \notin inflight
                /\ meta[Ev.k].g # Ev.g
                /\ gen' = {o \in gen : ~(o[1] = Ev.k /\ o[2] = Ev.g)}
@@ -143,7 +154,7 @@ Clock ==
                    THEN born \cup {<<Ev.g, callAt[P]>>} ELSE born
 
 TraceInit == Init /\ l = 1 /\ callAt = [p \in Proc |-> 0] /\ born = {}
-TraceNext == (TrReset \/ TrInit \/ TrCall \/ TrBe \/ TrQuiet \/ TrRet \/ TrCrash \/ TrObs) /\ Clock
+TraceNext == (TrReset \/ TrInit \/ TrPlant \/ TrCall \/ TrBe \/ TrQuiet \/ TrRet \/ TrCrash \/ TrObs) /\ Clock
 TraceSpec == TraceInit /\ [][TraceNext]_tvars
 
 TraceAccepted ==
